@@ -40,7 +40,8 @@ def owedBy (sn : SSnap) : Int := Id.run do
         if !unclaimedVoters.isEmpty then owed := owed + (latest.voterReward - paid) - (voters.length : Int)
   return owed
 
-/-- C04 (dispute account): after every block the dispute module holds at least what it owes -/
+/-- C04 (dispute account): after every block the dispute module holds at least what it owes, and no refund or reward claim is rejected
+    for lack of funds (inside the trigger of the recorded finding from-bond-fee-dust such a rejection is reported as that finding) -/
 def runCover (_inp : List String) (out : String) : Option Res :=
   let sc := scanSettle out
   let snaps := sc.snaps.reverse
@@ -50,6 +51,24 @@ def runCover (_inp : List String) (out : String) : Option Res :=
     let good := sn.disputeBal + 4 ≥ owed
     (ok && good, if good || note != "" then note else s!"dispute account holds {sn.disputeBal}, owes {owed} (disputes {sn.ds.map (fun d => (d.id, d.status, d.result, d.executed))})",
      n + (if owed > 0 then 1 else 0))) (true, "", 0)
-  some { agree := !sc.halted, monitor := ok, nontrivial := decide (n ≥ 3), model := s!"blocks_with_debt={n}", note := if note != "" then note else sc.note }
+  -- rejected claims
+  let (dusty, short, known) := (snaps.zip snaps.tail).foldl (fun (acc : List Nat × String × String) p =>
+    let (dusty, short, known) := acc
+    let (a, b) := p
+    let dusty := (dusty ++ dustShort a ++ dustShort b).eraseDups
+    b.xs.foldl (fun (acc : List Nat × String × String) x =>
+      let (dusty, short, known) := acc
+      if x.get "why" == "insufficient" && (x.kind == "wfr" || x.kind == "claim") then
+        let id := ((x.get "id").toNat?).getD 0
+        let first := ((a.ds.find? (·.id == id)).map (fun d => d.prev.foldl min id)).getD id
+        let m := s!"{x.kind} of {x.signer} on dispute {id} was rejected for lack of funds"
+        if dusty.contains first then (dusty, short, if known.isEmpty then m ++ ": its from-stake fee was escrowed short of the recorded amount" else known)
+        else (dusty, if short.isEmpty then m else short, known)
+      else acc) (dusty, short, known)) (([] : List Nat), "", "")
+  let _ := dusty
+  let mon := ok && short.isEmpty
+  some { agree := !sc.halted, monitor := mon && known.isEmpty, nontrivial := decide (n ≥ 3), model := s!"blocks_with_debt={n}",
+         note := if note != "" then note else if short != "" then short else if known != "" then known else sc.note,
+         finding := if mon && known != "" then "from-bond-fee-dust" else "" }
 
 end Driver
